@@ -226,6 +226,21 @@ pub fn decode(t: &mut Tape) -> GenCase {
         };
         rules.push(r);
     }
+    if t.chance(1, 12) {
+        // a family: many complex rules keyed under ONE class/id (buckets of 2-90 selectors)
+        let (text, value) = ident(t);
+        let sigil = if t.chance(2, 3) { '.' } else { '#' };
+        let m = [2usize, 8, 31, 32, 33, 40, 64, 90][t.pick(8)];
+        for k in 0..m {
+            let tail = match t.pick(4) {
+                0 => format!(" > .child-{}", k),
+                1 => format!(".c{}", k),
+                2 => format!("[data-k=\"{}\"]", k),
+                _ => format!(" div.d{}", k),
+            };
+            rules.push(GenRule { sigil, ident_text: text.clone(), ident_value: value.clone(), tail, via_negation: false });
+        }
+    }
     let mut classes = vec![];
     let mut ids = vec![];
     let mut exceptions = vec![];
@@ -263,7 +278,7 @@ pub fn decode(t: &mut Tape) -> GenCase {
 }
 
 pub fn check(ctx: &mut Ctx) {
-    ctx.rule = "1-8 generic rules '##SEL' (1/10 written as '~neg.example##SEL'): SEL = '.ident' / '#ident' with ident from the CSS identifier grammar (plain, non-ASCII, backslash-escaped punctuation, hex escapes of 1-6 digits with/without the terminating space, upper/lower-case digits) followed by nothing (simple) or a compound/descendant/list tail (complex, often sharing its key with a simple rule), or a selector starting with neither; class/id query sets = the unescaped names of a subset of the rules + near misses (escaped spelling, prefix, suffix, case, other namespace); exception sets drawn from the rules' selectors. Oracle: identifiers are generated together with their unescaped value; expected lookup result = selectors whose unescaped key is queried, minus exceptions; partition: each selector is served by exactly one of hidden_class_id_selectors(own key) and url_cosmetic_resources(..).hide_selectors. Non-trivial = a rule with an escape, or a complex rule sharing its key with a simple one.".into();
+    ctx.rule = "1-8 generic rules '##SEL' (1/10 written as '~neg.example##SEL'): SEL = '.ident' / '#ident' with ident from the CSS identifier grammar (plain, non-ASCII, backslash-escaped punctuation, hex escapes of 1-6 digits with/without the terminating space, upper/lower-case digits) followed by nothing (simple) or a compound/descendant/list tail (complex, often sharing its key with a simple rule; 1 case in 12 adds a family of 2-90 complex rules under one key), or a selector starting with neither; class/id query sets = the unescaped names of a subset of the rules + near misses (escaped spelling, prefix, suffix, case, other namespace); exception sets drawn from the rules' selectors. Oracle: identifiers are generated together with their unescaped value; expected lookup result = selectors whose unescaped key is queried, minus exceptions; partition: each selector is served by exactly one of hidden_class_id_selectors(own key) and url_cosmetic_resources(..).hide_selectors. Non-trivial = a rule with an escape, or a complex rule sharing its key with a simple one.".into();
     ctx.assumptions = vec!["NUL, surrogate and out-of-range code points are not generated (CSS maps them to U+FFFD; the library drops such rules)".into()];
     let n = ctx.tier.pick(2_000_000, 12_000_000);
     drive(ctx, "generic", n, 200, &decode, &check_case);
